@@ -1,3 +1,101 @@
+/-
+  Props.C19 — Retention drops only expired data.
+  Model: `Influx.Model.Meta*` (leaf predicates regenerated from /repo by the translator).
+-/
 import Influx.Spec.C19
+import Influx.Lemmas.MetaRetention
+
 namespace Influx.Props.C19
+open Influx.Meta Influx.Spec.C19
+open Influx.Generated.Meta
+
+/-- `ExpiredShardGroups(now)` selects exactly the groups that are not deleted and whose end lies
+    more than the (non-zero) retention period before `now`. -/
+theorem expired_iff (r : RetentionPolicyInfo) (now : Int) (g : ShardGroupInfo) :
+    g ∈ expiredShardGroups r now ↔
+      g ∈ r.ShardGroups ∧ g.DeletedAt = zeroTime ∧ r.Duration ≠ 0 ∧ g.EndTime + r.Duration < now :=
+  mem_expired_iff r now g
+
+/-- every timestamp of an expired group is older than `now − Duration` -/
+theorem expired_older (r : RetentionPolicyInfo) (now : Int) (g : ShardGroupInfo)
+    (h : g ∈ expiredShardGroups r now) (x : Int) (hx : g.StartTime ≤ x ∧ x < g.EndTime) :
+    x < now - r.Duration := by
+  have := (mem_expired_iff r now g).mp h
+  omega
+
+/-- with no retention period nothing expires -/
+theorem expired_infinite (r : RetentionPolicyInfo) (now : Int) (h : r.Duration = 0) :
+    expiredShardGroups r now = [] := by
+  apply List.eq_nil_iff_forall_not_mem.mpr
+  intro g hg
+  exact ((mem_expired_iff r now g).mp hg).2.2.1 h
+
+/-- **no other shard is touched**: every shard id `DeletionCheck` hands to the store
+    (`SetShardNewReadersBlocked`, `ShardInUse`, `DeleteShard`) is a local shard of a group that
+    was already deleted or is expired at `now` in the metadata the check started from; every
+    shard group it deletes is expired; every metadata reference it drops is of such a group. -/
+theorem deletion_safe (now : Int) (d : Data) (st : Store) :
+    ∀ e ∈ (deletionCheck now d st).log, EvGood d now st.shards e :=
+  deletionCheck_safe now d st
+
+/-- the shard ids that reach `TSDBStore.DeleteShard` -/
+theorem deleted_shards_expired (now : Int) (d : Data) (st : Store) (id : Nat)
+    (h : id ∈ deleteCalls (deletionCheck now d st).log) :
+    id ∈ st.shards ∧ ∃ di ∈ d.Databases, ∃ r ∈ di.RetentionPolicies, ∃ g ∈ r.ShardGroups,
+      (g.DeletedAt ≠ zeroTime ∨
+        (g.DeletedAt = zeroTime ∧ r.Duration ≠ 0 ∧ ∀ x, g.StartTime ≤ x ∧ x < g.EndTime → x < now - r.Duration)) ∧
+      ∃ sh ∈ g.Shards, sh.ID = id := by
+  simp only [deleteCalls, List.mem_filterMap] at h
+  obtain ⟨e, he, hid⟩ := h
+  cases e <;> simp at hid
+  subst hid
+  obtain ⟨hloc, di, hdi, r, hr, g, hg, hx, hsh⟩ := deletion_safe now d st _ he
+  refine ⟨hloc, di, hdi, r, hr, g, hg, ?_, hsh⟩
+  rcases hx with hx | hx
+  · exact Or.inl hx
+  · have h2 := (mem_expired_iff r now g).mp hx
+    exact Or.inr ⟨h2.2.1, h2.2.2.1, fun x hx2 => expired_older r now g hx x hx2⟩
+
+/-- the statement's expiry clause holds of every `exp` step of the model -/
+theorem C19_exp (s : State) (db rp : String) (D : Int) (t : Int) :
+    holdsOp (.exp db rp D t, (step s (.exp db rp D t)).2) = true := by
+  simp only [step]
+  split
+  · next r hr =>
+    simp only [holdsOp, expiredOK, List.all_eq_true, List.mem_map, forall_exists_index, and_imp,
+      forall_apply_eq_imp_iff₂]
+    intro g hg
+    have h := (mem_expired_iff { r with Duration := D } t g).mp hg
+    simp only [Bool.and_eq_true, bne_iff_ne, ne_eq, List.any_eq_true, beq_iff_eq]
+    refine ⟨h.2.2.1, g, h.1, rfl, ?_⟩
+    simp only [rangeOlder, Bool.or_eq_true, decide_eq_true_eq]
+    left; have := h.2.2.2; simp at this; omega
+  · rfl
+
+/-- operations the first-round theorem does not cover yet -/
+def deferred : Op → Bool
+  | .ms .. | .dc .. => true
+  | _ => false
+
+/-- the statement checker accepts the model's trace on every history without `MapShards` /
+    `DeletionCheck` steps.  (Those two are covered by `deletion_safe` / `deleted_shards_expired`
+    at the level of the model functions; the trace-level theorem for them needs the
+    well-formedness invariant of the meta data and follows in `C19_holdsOn`.) -/
+theorem C19_holdsOn_partial (ops : List Op) (h : ∀ op ∈ ops, deferred op = false) (s : State) :
+    holdsOn (run s ops) = true := by
+  induction ops generalizing s with
+  | nil => rfl
+  | cons op ops ih =>
+    simp only [run, holdsOn, List.all_cons, Bool.and_eq_true]
+    refine ⟨?_, ih (fun o ho => h o (by simp [ho])) _⟩
+    have hop := h op (by simp)
+    cases op with
+    | ms => simp [deferred] at hop
+    | dc => simp [deferred] at hop
+    | exp db rp D t => exact C19_exp s db rp D t
+    | _ => simp [holdsOp]
+
+example : ∀ op ∈ [Op.rp "db" "rp" 3600000000000 false, Op.csg "db" "rp" 5, Op.exp "db" "rp" 10 7200000000001],
+    deferred op = false := by decide
+
 end Influx.Props.C19
